@@ -5,6 +5,7 @@ package props
 import (
 	"bytes"
 	"fmt"
+	"math"
 	"testing"
 	"time"
 
@@ -29,6 +30,7 @@ type c02Cfg struct {
 	Others      []c02Other
 	Lapsers     int   // provers that join the file right after it is posted and never prove again (they get dropped at reward blocks)
 	OwnerProves bool  // the honest prover is the account that owns (posted and pays for) the file
+	ProofType   int64 // proof_type of the posted files
 	Misses      int64 // the MissesToBurn parameter (0: leave the default); the property allows an honest prover no burn under any setting
 	PayOnce     int64 // > 0: the main file is paid once and expires this many blocks after its start (the chain demands >= 1 day)
 }
@@ -61,6 +63,7 @@ func c02Content(n int64) []byte {
 
 func c02Run(c *chain.Chain, cfg c02Cfg) (out c02Out) {
 	w := newStorWorld(c, cfg.S)
+	w.proofType = cfg.ProofType
 	defer func() { out.trace = w.trace }()
 	owner, prover := chain.Acc(0), chain.Acc(1)
 	if cfg.OwnerProves {
@@ -250,6 +253,7 @@ func genC02(rt *rapid.T) c02Cfg {
 		cfg.Size = 1
 	}
 	cfg.OwnerProves = rapid.IntRange(0, 3).Draw(rt, "ownerProves") == 0
+	cfg.ProofType = rapid.SampledFrom([]int64{0, 0, 0, 1, 2, -1, math.MaxInt64}).Draw(rt, "proofType")
 	cfg.Misses = rapid.SampledFrom([]int64{0, 0, 1, 1, 2, 3, 5}).Draw(rt, "missesToBurn")
 	cfg.W = rapid.Int64Range(2, 24).Draw(rt, "proofWindow")
 	cfg.C = rapid.Int64Range(2, 24).Draw(rt, "checkWindow")
